@@ -1199,10 +1199,11 @@ class Runner:
             self.sim.probe("epipe_seen")
             G = st.group
             oc = st.objs.get(fd)
-            if oc is not None and (oc is G.cap_out or oc is G.cap_err) and not self.sc.get("faults"):
+            if oc is not None and (oc is G.cap_out or oc is G.cap_err) and not self.sc.get("faults") \
+                    and not getattr(self, "relaxed", False):
                 # The shell is the only reader of a capture pipe and has to drain it to end-of-file, that is
                 # until every writer has closed it: a writer that still holds it can never see EPIPE.
-                # (Not judged under injected pipe()/fork() failures, where the capture may be abandoned.)
+                # (Not judged under injected pipe()/fork() failures or an active descriptor limit, where the capture may be abandoned.)
                 raise Violation("stream_corrupt", "%s got EPIPE on descriptor %d: the shell closed capture pipe %s "
                                 "while its writer was still running" % (st.label(), fd, oc.label))
             o = st.objs.get(1)
